@@ -71,24 +71,128 @@ func (g *Gen) heapArr(h Heap, name, sort string) string {
 		ep = "0"
 	}
 	init := name + "@" + ep
-	g.decl("heap:"+init, fmt.Sprintf("(declare-const %s %s)", init, sort))
+	if !g.declSet["heap:"+init] {
+		g.decl("heap:"+init, fmt.Sprintf("(declare-const %s %s)", init, sort))
+		g.closureAxiom(name, init, sort, ep)
+	}
 	return init
+}
+
+// refKind: how references occur in values of heap array `name` ("" none, "ref" the value is a
+// reference, "slice" the value is a slice header whose backing array is a reference).
+func refKindOf(t types.Type) string {
+	switch t.Underlying().(type) {
+	case *types.Pointer, *types.Map, *types.Chan:
+		return "ref"
+	case *types.Slice:
+		return "slice"
+	}
+	return ""
+}
+
+// closureAxiom: the heap is closed — every reference stored in a pre-existing (or havocked) heap
+// array points to an object allocated no later than the state it belongs to. This is what makes
+// freshly allocated objects distinct from everything reachable before.
+func (g *Gen) closureAxiom(name, term, sort, epoch string) {
+	kind := g.heapRefKind[name]
+	if kind == "" {
+		return
+	}
+	alloc := "$alloc@0"
+	if epoch != "0" {
+		a, ok := g.epochAlloc[epoch]
+		if !ok {
+			return
+		}
+		alloc = a
+	} else {
+		g.heapSort["$alloc"] = "Int"
+		g.decl("heap:$alloc@0", "(declare-const $alloc@0 Int)")
+		g.decl("heap:$alloc@0>0", "(assert (> $alloc@0 0))")
+	}
+	g.closureAxiomAt(name, term, sort, alloc)
+}
+
+// closedValue: a single havocked value stored in heap array `name` refers to nothing allocated
+// after `alloc`.
+func (g *Gen) closedValue(name, v, alloc string) {
+	switch g.heapRefKind[name] {
+	case "ref":
+		g.defs = append(g.defs, fmt.Sprintf("(<= %s %s)", v, alloc))
+	case "slice":
+		g.defs = append(g.defs, fmt.Sprintf("(<= (s_arr %s) %s)", v, alloc))
+	}
+}
+
+func (g *Gen) closureAxiomAt(name, term, sort, alloc string) {
+	kind := g.heapRefKind[name]
+	if kind == "" {
+		return
+	}
+	val := func(v string) string {
+		if kind == "slice" {
+			return "(s_arr " + v + ")"
+		}
+		return v
+	}
+	// shapes: (Array Int V) | (Array Int (Array K V))
+	inner := strings.TrimSuffix(strings.TrimPrefix(sort, "(Array Int "), ")")
+	if strings.HasPrefix(inner, "(Array ") {
+		// find key sort of the inner array
+		ks := firstSort(inner[len("(Array "):])
+		g.defs = append(g.defs, fmt.Sprintf("(forall ((r Int) (k %s)) (! (<= %s %s) :pattern ((select (select %s r) k))))", ks, val(fmt.Sprintf("(select (select %s r) k)", term)), alloc, term))
+		return
+	}
+	g.defs = append(g.defs, fmt.Sprintf("(forall ((r Int)) (! (<= %s %s) :pattern ((select %s r))))", val(fmt.Sprintf("(select %s r)", term)), alloc, term))
+}
+
+// firstSort returns the first sort expression at the start of s.
+func firstSort(s string) string {
+	if !strings.HasPrefix(s, "(") {
+		if i := strings.IndexAny(s, " )"); i >= 0 {
+			return s[:i]
+		}
+		return s
+	}
+	depth := 0
+	for i, c := range s {
+		switch c {
+		case '(':
+			depth++
+		case ')':
+			depth--
+			if depth == 0 {
+				return s[:i+1]
+			}
+		}
+	}
+	return s
 }
 
 func (g *Gen) fieldArrName(structT types.Type, field int) (string, string) {
 	st := structT.Underlying().(*types.Struct)
 	f := st.Field(field)
 	name := "H$" + g.structName(structT) + "$" + f.Name()
+	g.heapRefKind[name] = refKindOf(f.Type())
 	return name, "(Array Int " + g.sortOf(f.Type()) + ")"
 }
 
 func (g *Gen) cellArrName(t types.Type) (string, string) {
 	s := g.sortOf(t)
+	if !g.intMode || refKindOf(t) != "" {
+		// in int mode C$Int is shared by integers and references: no closure axiom there
+		if k := refKindOf(t); k != "" && !(g.intMode && s == "Int") {
+			g.heapRefKind["C$"+sanitize(s)] = k
+		}
+	}
 	return "C$" + sanitize(s), "(Array Int " + s + ")"
 }
 
 func (g *Gen) elemArrName(t types.Type) (string, string) {
 	s := g.sortOf(t)
+	if k := refKindOf(t); k != "" && !(g.intMode && s == "Int") {
+		g.heapRefKind["E$"+sanitize(s)] = k
+	}
 	return "E$" + sanitize(s), "(Array Int (Array " + g.IS() + " " + s + "))"
 }
 
